@@ -652,4 +652,20 @@ theorem key_eq_spec (s h p q : Str) (hs : s = (str% "http") ∨ s = (str% "https
     · by_cases hpe : P.isEmpty = true <;> by_cases hq : q.isEmpty = true <;>
         simp [hp0, hpe, hq, hdef, List.append_assoc]
 
+/-- the key with the "?" of a present-and-empty query is the RFC normal form too -/
+theorem keyQ_eq_spec (s h p q : Str) (fq : Bool) (hs : s = (str% "http") ∨ s = (str% "https")) :
+    makeURLKeyQ s h p q [] fq = Spec.urlNormQ s h p q fq := by
+  unfold makeURLKeyQ Spec.urlNormQ
+  rw [key_eq_spec s h p q hs]
+  simp
+
+/-- "/p?" and "/p" never share a key -/
+theorem forced_query_distinct (s h p : Str) :
+    makeURLKeyQ s h p [] [] true ≠ makeURLKeyQ s h p [] [] false := by
+  unfold makeURLKeyQ
+  simp only [List.isEmpty_nil, Bool.and_self, ↓reduceIte, Bool.false_and, Bool.false_eq_true]
+  intro h'
+  have := congrArg List.length h'
+  simp at this
+
 end Httpcache
